@@ -295,3 +295,80 @@ func vh_idempotent_flag() {
 	vAssert(q.IsIdempotent() == f, "C13/query/idempotent-as-marked")
 	vObserve("all", all)
 }
+
+// ---- the real *Query / *Batch through the real executor: attempts are counted ----
+//
+// Every retry policy bounds the sends through RetryableQuery.Attempts(); that counter is only advanced by
+// Query.attempt / Batch.attempt -> queryMetrics.attempt, with or without an observer. Here the real types
+// run through queryExecutor.do with Conn.executeQuery / executeBatch scripted to fail every time:
+// SimpleRetryPolicy{N} must stop after N+1 sends and Attempts() must equal the number of sends.
+
+var vRealSends int
+
+func vstubConnExecuteQuery(c *Conn, ctx context.Context, q *Query) *Iter {
+	vRealSends++
+	return &Iter{err: vErrServer}
+}
+func vstubConnExecuteBatch(c *Conn, ctx context.Context, b *Batch) *Iter {
+	vRealSends++
+	return &Iter{err: vErrServer}
+}
+func vstubGetPoolAlways(p *policyConnPool, host *HostInfo) (*hostConnPool, bool) {
+	return &hostConnPool{host: host}, true
+}
+func vstubPoolPickAlways(pool *hostConnPool) *Conn { return &Conn{host: pool.host} }
+
+type vObs struct{ n int }
+
+func (o *vObs) ObserveQuery(ctx context.Context, q ObservedQuery) { o.n++ }
+func (o *vObs) ObserveBatch(ctx context.Context, b ObservedBatch) { o.n++ }
+
+func vh_real_types_attempts() {
+	nh := vBound("hosts")
+	sel := make([]*vSelHost, nh)
+	for i := range sel {
+		sel[i] = &vSelHost{h: &HostInfo{hostId: string(rune('a' + i)), connectAddress: vAddrs[i%len(vAddrs)], state: NodeUp}}
+	}
+	offered := 0
+	hostIter := func() SelectedHost {
+		if offered >= nh {
+			return nil
+		}
+		offered++
+		return sel[offered-1]
+	}
+	n := vChoose("num_retries", 3)
+	rt := &SimpleRetryPolicy{NumRetries: n}
+	withObserver := vBool("with_observer")
+	obs := &vObs{}
+	var qry ExecutableQuery
+	var attempts func() int
+	if vBool("batch") {
+		b := &Batch{Type: LoggedBatch, rt: rt, context: context.Background(), metrics: &queryMetrics{m: map[string]*hostMetrics{}}, spec: &NonSpeculativeExecution{}}
+		b.Entries = []BatchEntry{{Stmt: "s"}}
+		if withObserver {
+			b.observer = obs
+		}
+		qry, attempts = b, b.Attempts
+	} else {
+		q := &Query{stmt: "s", rt: rt, context: context.Background(), metrics: &queryMetrics{m: map[string]*hostMetrics{}}, spec: &NonSpeculativeExecution{}}
+		if withObserver {
+			q.observer = obs
+		}
+		qry, attempts = q, q.Attempts
+	}
+	ex := &queryExecutor{pool: &policyConnPool{}}
+	vRealSends = 0
+	iter := ex.do(context.Background(), qry, hostIter)
+	vAssert(iter != nil && iter.err != nil, "C13/real/all-attempts-failed-is-an-error")
+	want := n + 1
+	if nh < want {
+		want = nh
+	}
+	vAssert(vRealSends == want, "C13/real/simple-policy-bounds-the-sends-of-queries-and-batches")
+	vAssert(attempts() == vRealSends, "C13/real/attempts-counts-every-send")
+	if withObserver {
+		vAssert(obs.n == vRealSends, "C13/real/observer-sees-every-attempt")
+	}
+	vObserve("sends", vRealSends)
+}
